@@ -468,6 +468,83 @@ def build(ftype: str, devnames=(), n: int = 1) -> flow.Flow:
 
 
 # ---------------------------------------------------------------------------
+# independent observation of a live flow (attribute reads only - never get_state), so that a
+# defect on the get_state side cannot cancel itself out in a get_state == get_state comparison
+
+_CONN_FLOAT = ("timestamp_start", "timestamp_end", "timestamp_tls_setup", "timestamp_tcp_setup")
+_CONN_PLAIN = ("peername", "sockname", "id", "transport_protocol", "error", "tls", "alpn", "alpn_offers", "cipher",
+               "cipher_list", "tls_version", "sni")
+
+
+def _f(x):
+    """fields annotated `float` hold int or float with the same meaning"""
+    return float(x) if isinstance(x, int) and not isinstance(x, bool) else x
+
+
+def _obs_conn(c):
+    o = {k: getattr(c, k) for k in _CONN_PLAIN}
+    for k in _CONN_FLOAT:
+        if hasattr(c, k):
+            o[k] = _f(getattr(c, k))
+    o["certificate_list"] = [x.to_pem() for x in c.certificate_list]
+    if isinstance(c, connection.Client):
+        o["mitmcert"] = c.mitmcert.to_pem() if c.mitmcert else None
+        o["proxy_mode"] = c.proxy_mode.full_spec
+    else:
+        o["address"] = c.address
+        o["via"] = c.via
+    return o
+
+
+def _obs_msg(m):
+    if m is None:
+        return None
+    d = m.data
+    o = {k: getattr(d, k) for k in ("http_version", "content", "timestamp_start", "timestamp_end")}
+    o["headers"] = tuple(d.headers.fields)
+    o["trailers"] = None if d.trailers is None else tuple(d.trailers.fields)
+    for k in ("host", "port", "method", "scheme", "authority", "path", "status_code", "reason"):
+        if hasattr(d, k):
+            o[k] = getattr(d, k)
+    return o
+
+
+def _obs_dns(m):
+    if m is None:
+        return None
+    o = {k: getattr(m, k) for k in ("id", "query", "op_code", "authoritative_answer", "truncation", "recursion_desired",
+                                    "recursion_available", "reserved", "response_code")}
+    o["timestamp"] = _f(m.timestamp)
+    o["questions"] = [(q.name, q.type, q.class_) for q in m.questions]
+    for sec in ("answers", "authorities", "additionals"):
+        o[sec] = [(r.name, r.type, r.class_, r.ttl, r.data) for r in getattr(m, sec)]
+    return o
+
+
+def observe(f) -> dict:
+    o = {
+        "class": type(f).__name__, "id": f.id, "error": None if f.error is None else (f.error.msg, _f(f.error.timestamp)),
+        "intercepted": f.intercepted, "is_replay": f.is_replay, "marked": f.marked, "metadata": f.metadata,
+        "comment": f.comment, "timestamp_created": f.timestamp_created, "backup": f._backup,
+        "client_conn": _obs_conn(f.client_conn), "server_conn": _obs_conn(f.server_conn),
+    }
+    if isinstance(f, http.HTTPFlow):
+        o["request"] = _obs_msg(f.request)
+        o["response"] = _obs_msg(f.response)
+        ws = f.websocket
+        o["websocket"] = None if ws is None else {
+            "messages": [(int(m.type), m.from_client, m.content, m.timestamp, m.dropped, m.injected) for m in ws.messages],
+            "closed_by_client": ws.closed_by_client, "close_code": ws.close_code, "close_reason": ws.close_reason,
+            "timestamp_end": _f(ws.timestamp_end)}
+    elif isinstance(f, (tcp.TCPFlow, udp.UDPFlow)):
+        o["messages"] = [(type(m).__name__, m.from_client, m.content, m.timestamp) for m in f.messages]
+    elif isinstance(f, dns.DNSFlow):
+        o["request"] = _obs_dns(f.request)
+        o["response"] = _obs_dns(f.response)
+    return o
+
+
+# ---------------------------------------------------------------------------
 # strictly typed state comparison
 
 
